@@ -2,7 +2,7 @@
 //! one or more build profiles, merges what they measured, prints the verdict
 //! lines and writes the evidence file.
 
-use crate::{arg, KnownFindings, VERIF_DIR};
+use crate::{arg, verif_dir, KnownFindings};
 use serde_json::{json, Value};
 use std::collections::{BTreeMap, BTreeSet};
 use std::process::{Command, Stdio};
@@ -83,12 +83,12 @@ pub fn check(args: &[String]) -> i32 {
     let runs: u64 = arg(args, "--runs").and_then(|s| s.parse().ok()).unwrap_or(20_000);
     let deadline_ms: u64 = arg(args, "--deadline-ms").and_then(|s| s.parse().ok()).unwrap_or(120_000);
     let evidence_path =
-        arg(args, "--evidence").unwrap_or_else(|| format!("{VERIF_DIR}/evidence/{prop}.json"));
+        arg(args, "--evidence").unwrap_or_else(|| format!("{}/evidence/{prop}.json", verif_dir()));
     let extra: Option<Value> = arg(args, "--extra-json")
         .and_then(|p| std::fs::read_to_string(p).ok())
         .and_then(|s| serde_json::from_str(&s).ok());
     let t0 = std::time::Instant::now();
-    let tmp = format!("{VERIF_DIR}/sim/target/tmp/{}-{}-{}", prop, tier, std::process::id());
+    let tmp = format!("{}/sim/target/tmp/{}-{}-{}", verif_dir(), prop, tier, std::process::id());
     let _ = std::fs::remove_dir_all(&tmp);
     std::fs::create_dir_all(&tmp).expect("tmp dir");
     println!("tzsim check property={prop} tier={tier} VERIF_SEED={seed} runs_per_profile={runs} workers={workers} profiles={}", bins.len());
@@ -329,7 +329,7 @@ pub fn check(args: &[String]) -> i32 {
         "wall_s": wall,
         "violations": unlisted,
     });
-    let _ = std::fs::create_dir_all(format!("{VERIF_DIR}/evidence"));
+    let _ = std::fs::create_dir_all(format!("{}/evidence", verif_dir()));
     if let Err(e) = std::fs::write(&evidence_path, serde_json::to_string_pretty(&doc).unwrap()) {
         println!("HARNESS-ERROR cannot write evidence: {e}");
         return 2;
